@@ -100,10 +100,22 @@ class RenameAppLabel(BaseMutation):
             # Move over only the requested models, in case the app signature
             # has the contents of two separate apps merged. Each will be
             # validated by way of simulation.get_model_sig.
-            model_sigs = [
-                simulation.get_model_sig(model_name)
-                for model_name in model_names
-            ]
+            #
+            # These are looked up in the old app's signature. By the time
+            # this runs through an AppMutator, the simulation already uses
+            # the new app label, whose (still empty) signature was just
+            # added above.
+            model_sigs = []
+
+            for model_name in model_names:
+                model_sig = old_app_sig.get_model_sig(model_name)
+
+                if model_sig is None:
+                    simulation.fail(
+                        'The model could not be found in the signature.',
+                        model_name=model_name)
+
+                model_sigs.append(model_sig)
 
         moved_model_names = set(
             model_sig.model_name
